@@ -33,6 +33,65 @@ ENTANGLED_CRITERIA = [("negative partial transpose", _crit_not_ppt, True), ("rea
                       ("positive map image not PSD", _crit_posmap, True), ("no symmetric extension", _crit_symext, False)]
 
 
+def _reduced_state_roles(ctx, f):
+    """rho_A (x) rho_B: the first Kronecker factor is the reduced state of the FIRST subsystem (trace over [1]), the second that of
+    the second (trace over [0]).  Locals are resolved through direct assignment and through tuple-unpacking of a
+    comprehension / generator over range(2) (element i is the body with the loop variable = i)."""
+    m = ctx.model
+
+    def traced(name):
+        for n in walk_no_nested(f.node):
+            if not isinstance(n, ast.Assign) or len(n.targets) != 1:
+                continue
+            tg, v = n.targets[0], n.value
+            if isinstance(tg, ast.Name) and tg.id == name and isinstance(v, ast.Call) and m.resolve_call(f, v).key.endswith("partial_trace.partial_trace"):
+                b = m.bind(v, m.resolve_call(f, v).func)
+                s_ = b.get("sys")
+                if isinstance(s_, (ast.List, ast.Tuple)) and len(s_.elts) == 1 and isinstance(s_.elts[0], ast.Constant):
+                    return s_.elts[0].value
+                if isinstance(s_, ast.Constant):
+                    return s_.value
+                return "?"
+            if isinstance(tg, (ast.Tuple, ast.List)) and any(isinstance(e, ast.Name) and e.id == name for e in tg.elts) and isinstance(v, (ast.GeneratorExp, ast.ListComp)) \
+                    and len(v.generators) == 1 and isinstance(v.generators[0].target, ast.Name) and isinstance(v.elt, ast.Call) \
+                    and m.resolve_call(f, v.elt).key.endswith("partial_trace.partial_trace"):
+                pos = [i for i, e in enumerate(tg.elts) if isinstance(e, ast.Name) and e.id == name][0]
+                it = v.generators[0].iter
+                vals = None
+                if isinstance(it, ast.Call) and isinstance(it.func, ast.Name) and it.func.id == "range" and len(it.args) == 1 and isinstance(it.args[0], ast.Constant):
+                    vals = list(range(it.args[0].value))
+                elif isinstance(it, (ast.List, ast.Tuple)) and all(isinstance(e, ast.Constant) for e in it.elts):
+                    vals = [e.value for e in it.elts]
+                if vals is None or pos >= len(vals):
+                    return "?"
+                b = m.bind(v.elt, m.resolve_call(f, v.elt).func)
+                s_ = b.get("sys")
+                lv = v.generators[0].target.id
+                if isinstance(s_, (ast.List, ast.Tuple)) and len(s_.elts) == 1:
+                    e = s_.elts[0]
+                    if isinstance(e, ast.Name) and e.id == lv:
+                        return vals[pos]
+                    if isinstance(e, ast.BinOp) and isinstance(e.op, ast.Sub) and isinstance(e.left, ast.Constant) and isinstance(e.right, ast.Name) and e.right.id == lv:
+                        return e.left.value - vals[pos]
+                return "?"
+        return None
+
+    n_k = 0
+    for c in walk_no_nested(f.node):
+        if isinstance(c, ast.Call) and m.resolve_call(f, c).key == "numpy.kron" and len(c.args) == 2 and all(isinstance(a, ast.Name) for a in c.args):
+            ta, tb = traced(c.args[0].id), traced(c.args[1].id)
+            if ta is None or tb is None:
+                continue
+            n_k += 1
+            ok = None if "?" in (ta, tb) else (ta == 1 and tb == 0)
+            ctx.ob("R-BIND", f, "rho_A (x) rho_B: first factor traces out subsystem 1, second traces out subsystem 0", ok,
+                   f"kron({c.args[0].id} = Tr_[1], {c.args[1].id} = Tr_[0])" if ok else
+                   f"`{unparse(c)}`: `{c.args[0].id}` traces out subsystem {ta} and `{c.args[1].id}` subsystem {tb}: the product of the marginals is assembled as rho_B (x) rho_A, "
+                   "so states with different marginals fail the comparison with rho", c, required=ok is not None)
+    if not n_k:
+        ctx.ob("R-BIND", f, "rho_A (x) rho_B: first factor traces out subsystem 1, second traces out subsystem 0", None, "no kron of two reduced states found", required=False)
+
+
 def run(ctx):  # noqa: C901
     m = ctx.model
     ctx.rule("R-PRED", "is_npt == not is_ppt with all arguments forwarded; verdict governance of is_separable (dominance + control dependence)")
@@ -93,6 +152,7 @@ def run(ctx):  # noqa: C901
     for f in m.functions.values():
         if f is isep:
             check_call_bases(ctx, f, "partial_channel.partial_channel", "sys")
+    _reduced_state_roles(ctx, isep)
     _shape_matmul(ctx, isep)
     _certain_type_errors(ctx, isep)
     r_kind_int(ctx, isep, "dim")
